@@ -460,15 +460,15 @@ Degenerate == <<
     << [k |-> "uri", v |-> B("/a%")] >>, << [k |-> "uri", v |-> B("/?%")] >>, << [k |-> "uri", v |-> B("/?a=%")] >>,
     << [k |-> "uri", v |-> B("//")] >>, << [k |-> "uri", v |-> B("/./")] >>, << [k |-> "uri", v |-> B("/..")] >>,
     << [k |-> "uri", v |-> B("/?=")] >>, << [k |-> "uri", v |-> B("/?&")] >>, << [k |-> "uri", v |-> B("/?=&=&")] >>,
-    << [k |-> "uri", v |-> B("/") \o LongA(8000)] >>,
-    << [k |-> "uri", v |-> B("/?") \o LongA(8000) \o B("=") \o LongA(8000)] >>,
+    << [k |-> "uri", v |-> B("/") \o LongA(700)] >>,
+    << [k |-> "uri", v |-> B("/?") \o LongA(700) \o B("=") \o LongA(700)] >>,
     << AuthSet(<<>>) >>, << AuthSet(B("  ")) >>, << AuthSet(B("AWS4-HMAC-SHA256")) >>, << AuthSet(B("AWS4-HMAC-SHA256 ")) >>,
     << AuthSet(B("AWS4-HMAC-SHA256 =")) >>, << AuthSet(B("AWS4-HMAC-SHA256 ,,,")) >>, << AuthSet(B("AWS4-HMAC-SHA256 Credential")) >>,
     << AuthSet(B("AWS4-HMAC-SHA256 Credential=")) >>, << AuthSet(B("AWS4-HMAC-SHA256 Credential=, SignedHeaders=, Signature=")) >>,
     << AuthSet(B("AWS4-HMAC-SHA256 Credential=/, SignedHeaders=;, Signature=")) >>,
     << AuthSet(B("AWS4-HMAC-SHA256 Credential=////, SignedHeaders=;;host;, Signature==")) >>,
     << AuthSet(B("AWS4-HMAC-SHA256") \o <<9>> \o B("Credential=a/b/c/d/e, SignedHeaders=host, Signature=0")) >>,
-    << AuthSet(B("AWS4-HMAC-SHA256 Credential=") \o LongA(8192) \o B("/20150830/us-east-1/service/aws4_request, SignedHeaders=host;x-amz-date, Signature=0")) >>,
+    << AuthSet(B("AWS4-HMAC-SHA256 Credential=") \o LongA(900) \o B("/20150830/us-east-1/service/aws4_request, SignedHeaders=host;x-amz-date, Signature=0")) >>,
     << AuthSet(B("AWS4-HMAC-SHA256 Credential=") \o <<233, 255, 128>> \o B("/20150830/us-east-1/service/aws4_request, SignedHeaders=host;x-amz-date, Signature=") \o <<255>>) >>,
     << AuthSet(B("AWS4-HMAC-SHA256 Credential=AKIDEXAMPLE/20150830/us-east-1/service/aws4_request, SignedHeaders=") \o <<233>> \o B(";host, Signature=0")) >>,
     << AuthSet(B("Basic dXNlcjpwYXNz")) >>, << AuthSet(B("AWS4-HMAC-SHA256Credential=x")) >>,
@@ -479,7 +479,7 @@ Degenerate == <<
     << [k |-> "hdrins", at |-> 1, name |-> B("Content-Type"), v |-> <<>>] >>,
     << [k |-> "hdrins", at |-> 1, name |-> B("Content-Type"), v |-> B(";;;=;charset")] >>,
     << [k |-> "hdrins", at |-> 1, name |-> B("Content-Type"), v |-> B("application/x-www-form-urlencoded;charset=;charset=utf-8")] >>,
-    << [k |-> "body", v |-> LongA(70000)] >> >>
+    << [k |-> "body", v |-> LongA(3000)] >> >>
 
 \* C07: positions at which the presented signature first differs from the expected one (-1 = control repeat of 0)
 CtPositions == IF Bound = 0 THEN <<0, -1, 1, 2, 15, 31, 32, 47, 62, 63>>
